@@ -304,8 +304,8 @@ theorem updateMeta_spec {w : World} {par : Path} (hl : LexDir w par) (nm : Strin
     MetaOnly (par ++ [nm]) w (updateMeta w (par ++ [nm]) mode mtime).1 := by
   unfold updateMeta
   rw [utimens_entry hl nm hs]
-  have h1 := pUtimens_meta w (par ++ [nm]) mtime
-  generalize pUtimens w (par ++ [nm]) mtime = r at h1
+  have h1 := pUtimens_meta w (par ++ [nm]) (tsSec mtime)
+  generalize pUtimens w (par ++ [nm]) (tsSec mtime) = r at h1
   simp only
   split
   · exact h1
@@ -386,7 +386,7 @@ theorem extractSymlink_spec {w : World} {par : Path} (hl : LexDir w par) (nm : S
       generalize touch (AMap.insert r.1 (par ++ [nm]) (linkNode e.linkname)) par = w2 at hs2 hf2
       have hl2 := hs2.lexDir hl1 (List.prefix_refl par)
       rw [utimens_entry hl2 nm hs]
-      have h3 := pUtimens_meta w2 (par ++ [nm]) e.mtime
+      have h3 := pUtimens_meta w2 (par ++ [nm]) (tsSec e.mtime)
       refine ⟨((hstep.trans hs2).trans h3.estep).mono (by simp), fun h1 h2 => absurd ⟨h1, h2⟩ hnb, fun _ => ?_⟩
       rw [isSome_of_kind h3.kind, hf2]; simp
 
